@@ -16,6 +16,9 @@ def run(tier, seed):
               'operator new modelled as non-failing malloc']
     for n, Ls, ws, nl in tok + byt:
         cp.run_parse_property('C06', tier, seed, [(d[n], Ls)], A, '', outside, assume, ws=ws, nl=nl, validate_cf=False, wit_every=2, finish=False, R=R, defer=cases, mode='safety', tag='s')
+    # the verbose trace path reads tables too (term names, rule numbers): same obligation with verbose on
+    for n, Ls in ([('d1', [2]), ('er1', [2])] if tier == 'quick' else [('d1', [1, 2, 3]), ('er1', [1, 2, 3]), ('etf', [2]), ('kwid', [2])]):
+        cp.run_parse_property('C06', tier, seed, [(d[n], Ls)], A, '', outside, assume, ws=1, nl=1, verbose=1, validate_cf=False, wit_every=2, finish=False, R=R, defer=cases, mode='safety', tag='sv')
     # standalone regex matcher on any string, matching or not
     wd = vlib.workdir('C06', fresh=False)
     lmax = 3 if tier == 'quick' else 5
